@@ -42,8 +42,28 @@ def optBool (j : J) (k : String) : Except String (Option Bool) :=
 
 def netJ {α} (f : α → J) (r : α × Nat) : J := J.mk [("addr", f r.1), ("bits", J.ofNat r.2)]
 
+/-- which of the repairs `fixes/C16_{ip6_text,eth_text,cidr,eth_seq}.diff` the tree under test has (read off its source by the
+    harness): `"var": [ip6, eth, cidr, seq]`; absent = the code without them -/
+structure Variant where
+  ip6 : Bool := false
+  eth : Bool := false
+  cidr : Bool := false
+  seq : Bool := false
+
+def getVariant (j : J) : Except String Variant :=
+  match j.get? "var" with
+  | none => pure {}
+  | some v => do
+    match ← (← v.asArr).mapM J.asBool with
+    | [a, b, c, d] => pure { ip6 := a, eth := b, cidr := c, seq := d }
+    | _ => .error "var: four booleans expected"
+
 def handle (j : J) : Except String J := do
   let op ← j.string "op"
+  let var ← getVariant j
+  let p6 : Str → Except Err Bytes := if var.ip6 then parse6S else parse6
+  let pc4 : Str → Bool → Bool → Except Err (IP4 × Nat) := if var.cidr then parseCidrS else parseCidr
+  let pc6 : Str → Bool → Except Err (Bytes × Nat) := if var.cidr then parseCidr6SWith p6 else parseCidr6With p6
   match op with
   | "ip4_text" => lift (IP4.ofText (txt (← j.bytes "t"))) fun x => pure (ip4View x)
   | "ip4_raw" => lift (IP4.ofRaw (← j.bytes "raw")) fun x => pure (ip4View x)
@@ -63,15 +83,15 @@ def handle (j : J) : Except String J := do
       | .error _ => .error "as: 4 raw bytes expected"
     lift (as.mapM fun a => inNetwork a n b) fun rs => pure (J.mk [("in", J.arr (rs.map J.bool))])
   | "ip4_innet_text" =>
-    lift (inNetworkText (← getIP4 j "a") (txt (← j.bytes "net"))) fun r => pure (J.mk [("in", J.bool r)])
+    lift (inNetworkTextWith pc4 (← getIP4 j "a") (txt (← j.bytes "net"))) fun r => pure (J.mk [("in", J.bool r)])
   | "ip4_parse_cidr" =>
-    lift (parseCidr (txt (← j.bytes "t")) (← j.boolean "infer") (← j.boolean "allow_host")) fun r =>
+    lift (pc4 (txt (← j.bytes "t")) (← j.boolean "infer") (← j.boolean "allow_host")) fun r =>
       pure (netJ (fun (x : IP4) => J.ofBytes x.raw) r)
   | "ip4_getnet" =>
-    lift (getNetwork (← getIP4 j "a") (txt (← j.bytes "arg"))) fun r => pure (netJ (fun (x : IP4) => J.ofBytes x.raw) r)
+    lift (getNetworkWith pc4 (← getIP4 j "a") (txt (← j.bytes "arg"))) fun r => pure (netJ (fun (x : IP4) => J.ofBytes x.raw) r)
   | "ip4_infer" => pure (J.mk [("bits", J.ofNat (inferNetmask (← getIP4 j "a")))])
   | "ip6_text" =>
-    lift (parse6 (txt (← j.bytes "t"))) fun a => pure (J.mk [("raw", J.ofBytes a), ("str", jtxt (str6 a))])
+    lift (p6 (txt (← j.bytes "t"))) fun a => pure (J.mk [("raw", J.ofBytes a), ("str", jtxt (str6 a))])
   | "ip6_str" =>
     let a ← get16 j "raw"
     let opts : List (Bool × Bool × Option Bool) :=
@@ -89,17 +109,17 @@ def handle (j : J) : Except String J := do
       if a.length = 16 then pure a else .error "as: 16 raw bytes expected"
     lift (as.mapM fun a => inNetwork6 a n b) fun rs => pure (J.mk [("in", J.arr (rs.map J.bool))])
   | "ip6_innet_text" =>
-    lift (inNetwork6Text (← get16 j "a") (txt (← j.bytes "net"))) fun r => pure (J.mk [("in", J.bool r)])
+    lift (inNetwork6TextWith pc6 (← get16 j "a") (txt (← j.bytes "net"))) fun r => pure (J.mk [("in", J.bool r)])
   | "ip6_parse_cidr" =>
-    lift (parseCidr6 (txt (← j.bytes "t")) (← j.boolean "allow_host")) fun r => pure (netJ J.ofBytes r)
+    lift (pc6 (txt (← j.bytes "t")) (← j.boolean "allow_host")) fun r => pure (netJ J.ofBytes r)
   | "bytes_cmp" =>
     let a ← j.bytes "a"; let b ← j.bytes "b"
     pure (J.mk [("eq", J.bool (a == b)), ("lt", J.bool (bytesLt a b)), ("gt", J.bool (bytesLt b a))])
   | "eth_text" =>
-    lift (ethOfText (txt (← j.bytes "t"))) fun b =>
+    lift ((if var.eth then ethOfTextS else ethOfText) (txt (← j.bytes "t"))) fun b =>
       pure (J.mk [("raw", J.ofBytes b), ("str", jtxt (ethToStr ':' b)), ("dash", jtxt (ethToStr '-' b))])
   | "eth_seq" =>
-    lift (ethOfSeq (← (← j.get "vals").asInts)) fun b => pure (J.mk [("raw", J.ofBytes b)])
+    lift ((if var.seq then ethOfSeqS else ethOfSeq) (← (← j.get "vals").asInts)) fun b => pure (J.mk [("raw", J.ofBytes b)])
   | "dpid_str" =>
     lift (dpidToStr (← j.nat "d") (← j.boolean "long")) fun s =>
       lift (strToDpid s) fun d => pure (J.mk [("str", jtxt s), ("back", J.ofNat d)])
